@@ -239,7 +239,10 @@ fn gen_cfg(env: &Env, src: &mut Src<'_>, malicious: Option<bool>) -> (ShufCfg, V
         world_seed: src.seed(),
         share_seed: src.seed(),
         assign,
-        timeout: Duration::from_secs(120),
+        // an honest shuffle of this size takes well under a second; once two cases of this run
+        // have hit the limit (a hang, not slowness) the remaining ones get a short limit, so that
+        // the run still reaches the cases that can give a verdict instead of the watchdog
+        timeout: if HONEST_TIMEOUTS.load(std::sync::atomic::Ordering::SeqCst) >= 2 { Duration::from_secs(4) } else { Duration::from_secs(if env.thorough() { 120 } else { 40 }) },
         tamper: None,
         more_tampers: vec![],
         grace_after_other_failure: None,
@@ -251,6 +254,8 @@ fn gen_cfg(env: &Env, src: &mut Src<'_>, malicious: Option<bool>) -> (ShufCfg, V
 fn cfg_json(cfg: &ShufCfg, vals: &[u128]) -> serde_json::Value {
     json!({"row": format!("{:?}", cfg.row), "cfg": cfg.inner.json(), "values": vals.iter().take(40).map(|v| format!("{v:#x}")).collect::<Vec<_>>(), "n": vals.len()})
 }
+
+static HONEST_TIMEOUTS: std::sync::atomic::AtomicU32 = std::sync::atomic::AtomicU32::new(0);
 
 /// all three helpers: same row count per shard, consistent sharing, multiset preserved
 fn check_output(res: &RunResult, vals: &[u128], shards: usize) -> Result<Vec<u128>, String> {
@@ -281,6 +286,7 @@ pub fn honest(env: &Env, src: &mut Src<'_>) -> CaseResult {
         });
     }
     if res.timed_out {
+        HONEST_TIMEOUTS.fetch_add(1, std::sync::atomic::Ordering::SeqCst);
         return Ok(CaseOk::new(false, &0u8, serde_json::Value::Null).label("inconclusive:timeout").labels(labels));
     }
     let out = match check_output(&res, &vals, cfg.inner.shards) {
